@@ -575,12 +575,50 @@ def new_chart(entry, ct_name, cd):
     return prs, gf.chart
 
 
+def extend_in_place(rnd, cd, desc):
+    """Grow an already-used chart-data object through its public API (one more category / data point, one more series) and
+    return the description of what it now holds.  Multi-level categories only gain a series (the tree stays uniform)."""
+    nd = copy.deepcopy(desc)
+    if desc["kind"] != "category":
+        dims = 2 if desc["kind"] == "xy" else 3
+        sers = list(cd)
+        if sers:
+            pt = [number(rnd) for _ in range(dims)]
+            sers[0].add_data_point(*pt)
+            nd["series"][0]["points"].append(pt)
+        pts = [[number(rnd) for _ in range(dims)] for _ in range(rnd.choice([1, 2, 3]))]
+        ser = cd.add_series("reuse-%d" % len(nd["series"]))
+        for pt in pts:
+            ser.add_data_point(*pt)
+        nd["series"].append({"name": "reuse-%d" % len(nd["series"]), "points": pts})
+        return nd
+    cats = nd["cats"]
+    m = len(cats["labels"]) if cats["kind"] != "multi" else len(leaves(cats["tree"]))
+    if cats["kind"] in ("str", "num") and all(len(x["values"]) == m for x in nd["series"]):
+        lab = "West%d" % m if cats["kind"] == "str" else 10 ** 6 + m
+        cd.add_category(lab)
+        cats["labels"].append(lab)
+        m += 1
+        # (values of the existing series are fixed at add_series time: they now end one short of the categories)
+    vals = [number(rnd) for _ in range(m)]
+    cd.add_series("reuse-%d" % len(nd["series"]), vals)
+    nd["series"].append({"name": "reuse-%d" % len(nd["series"]), "values": vals})
+    return nd
+
+
 def replace_steps(j, chart, descs, state, rnd, fmt):
     """the replace_data part of a case; state = [baseline messages, current series count]"""
     from pptx.chart.xmlwriter import SeriesXmlRewriterFactory
     from vlib import xsdkit
 
+    last_cd, last_desc = state[2:4] if len(state) >= 4 else (None, None)
     for k, nd in enumerate(descs):
+        reuse = nd == "REUSE"
+        if reuse:
+            if last_cd is None:
+                continue
+            nd = extend_in_place(rnd, last_cd, last_desc)  # the SAME chart-data object, grown since it was last used
+            j.acc.hit("chart-data-object-reused-after-growing")
         if fmt and k == 0:
             apply_formatting(chart, rnd, j.acc)
             state[0] = xsdkit.validate_part(chart.part.blob)[0]  # what formatting breaks is C03's business, not replace_data's
@@ -589,7 +627,8 @@ def replace_steps(j, chart, descs, state, rnd, fmt):
             rewriter = type(SeriesXmlRewriterFactory(chart.chart_type, None)).__name__
         except Exception:  # noqa  (a chart without plots has no chart_type; replace_data below reports it)
             rewriter = "none"
-        cd = build_data(nd)  # outside the guard: a harness error must not look like a python-pptx failure
+        cd = last_cd if reuse else build_data(nd)  # outside the guard: a harness error must not look like a python-pptx failure
+        last_cd, last_desc = cd, nd
         kept = []
         try:  # plot proxies a caller obtained (and read through) before replacing the data
             kept = list(chart.plots)
@@ -623,7 +662,9 @@ def run_case(case, acc):
     lo, hi = (1, 1) if case["writer"] == "_PieChartXmlWriter" else (0, 999)  # docs/user/charts.rst: a pie "only ever has a single series"
     desc = gen_data(rnd, kind, case["shape"], lo, hi)
     descs = [gen_data(rnd, kind, s, lo, hi) for s in case["rep"]]
-    sig = {"ct": case["ct"], "entry": case["entry"], "data": signature(desc), "rep": [signature(d) for d in descs]}
+    if case["seed"][-1] % 3 == 0 and case["writer"] != "_PieChartXmlWriter":
+        descs.insert(rnd.randrange(len(descs) + 1), "REUSE")  # the chart-data object used last is grown in place and used again
+    sig = {"ct": case["ct"], "entry": case["entry"], "data": signature(desc), "rep": [d if isinstance(d, str) else signature(d) for d in descs]}
     j = Judge(acc, dict(case, data=sig["data"]), "%s via %s, shape %s, then %s" % (case["ct"], case["entry"], case["shape"], case["rep"]))
     cd = build_data(desc)
     res, ok = guarded(j, lambda: new_chart(case["entry"], case["ct"], cd), desc, case["entry"])
@@ -633,7 +674,7 @@ def run_case(case, acc):
         acc.hit("writer:" + case["writer"])
         chart = res[1]
         check_part(j, chart, desc, Counter(), "create")
-        replace_steps(j, chart, descs, [Counter(), len(desc["series"])], rnd, case.get("fmt"))
+        replace_steps(j, chart, descs, [Counter(), len(desc["series"]), cd, desc], rnd, case.get("fmt"))
     d = sig["data"]
     acc.case(desc=sig, nontrivial=d["nser"] >= 2 or d["depth"] > 1 or d["none"] or bool(descs), cls="%s/%s" % (case["writer"][1:-14].lower(), case["shape"]), sample=sig)
     return j.n
